@@ -99,6 +99,9 @@ def main():
     # long tasks first when the harness gives weights
     jobs = [(HARNESS[prop], tasks[i][0], tasks[i][1]) for i in order]
     results = []
+    if not jobs:
+        print(f"HARNESS-ERROR property={a.prop} no task selected (--only {a.only!r})")
+        sys.exit(2)
     if a.jobs <= 1 or len(jobs) == 1:
         for j in jobs:
             results.append(_worker(j))
